@@ -372,7 +372,7 @@ def install(w):
     @b("call_fn")
     def _call_fn(ex, args, kw, e, env):
         i = z3.simplify(args[0].t).as_long()
-        if i >= len(ex.ctx.ghost_calls):
+        if i < 0 or i >= len(ex.ctx.ghost_calls):
             return Z(ex.fresh("no_such_call", ex.S.Py))
         return Z(ex.ctx.ghost_calls[i][0])
 
@@ -380,16 +380,28 @@ def install(w):
     def _call_arg(ex, args, kw, e, env):
         i = z3.simplify(args[0].t).as_long()
         j = z3.simplify(args[1].t).as_long()
-        if i >= len(ex.ctx.ghost_calls) or j >= len(ex.ctx.ghost_calls[i][1]):
+        if i < 0 or i >= len(ex.ctx.ghost_calls) or j >= len(ex.ctx.ghost_calls[i][1]):
             return Z(ex.fresh("no_such_arg", ex.S.Py))
         return Z(ex.ctx.ghost_calls[i][1][j])
 
     @b("call_result")
     def _call_result(ex, args, kw, e, env):
         i = z3.simplify(args[0].t).as_long()
-        if i >= len(ex.ctx.ghost_calls):
+        if i < 0 or i >= len(ex.ctx.ghost_calls):
             return Z(ex.fresh("no_such_call", ex.S.Py))
         return Z(ex.ctx.ghost_calls[i][2])
+
+    @b("has_cb")
+    def _has_cb(ex, args, kw, e, env):
+        """getattr(x, '_func_adl_type_info', None) is not None  (ghost attribute of an opaque value)"""
+        t = ex.to_py(args[0])
+        has = ex.w.ufun("hasattr___func_adl_type_info", ex.S.Py, z3.BoolSort())
+        val = ex.w.ufun("attr___func_adl_type_info", ex.S.Py, ex.S.Py)
+        return Z(z3.And(has(t), val(t) != ex.P.PNone))
+
+    @b("cb_of")
+    def _cb_of(ex, args, kw, e, env):
+        return Z(ex.w.ufun("attr___func_adl_type_info", ex.S.Py, ex.S.Py)(ex.to_py(args[0])))
 
     @b("is_param_record")
     def _is_param_record(ex, args, kw, e, env):
